@@ -297,7 +297,7 @@ pub fn cases_for(prop: &str, tier: &str, seed: u64, shard: (usize, usize)) -> (V
                 let mut si_idx = rng.below(pool.len() - 1);
                 // valid, mutated and grammar-random documents; every 4th: a structured merge case
                 let structured = i % 4 == 3;
-                let source = rng.below(3);
+                let source = rng.below(4);
                 if structured {
                     si_idx = pool.iter().position(|s| s.name == if source == 2 { "minimal" } else { "synthetic" }).unwrap();
                 }
@@ -309,7 +309,9 @@ pub fn cases_for(prop: &str, tier: &str, seed: u64, shard: (usize, usize)) -> (V
                             let all = crate::families::merge_shape_cases();
                             all[rng.below(all.len())].clone()
                         }
-                        _ => graph4_doc(&mut rng),
+                        2 => graph4_doc(&mut rng),
+                        // several operations and fragments sharing variables and, now and then, NAMES
+                        _ => crate::families::variable_graph_cases(&mut rng, 3).pop().unwrap(),
                     },
                     0 | 1 => crate::genvalid::VGen::new(rng.fork(), si, 2 + rng.below(3)).doc(),
                     2 => {
@@ -320,7 +322,9 @@ pub fn cases_for(prop: &str, tier: &str, seed: u64, shard: (usize, usize)) -> (V
                     _ => Gen::new(rng.fork(), si, GenCfg::mostly_valid()).gen_doc(),
                 };
                 let mut kind = crate::rewrite::REWRITES[(i + shard.0) % crate::rewrite::REWRITES.len()];
-                if structured && rng.pct(60) {
+                if structured && source == 3 {
+                    kind = *rng.pick(&["rename-fragments", "rename-operations", "rename-variables", "perm-definitions", "perm-variables"]);
+                } else if structured && rng.pct(60) {
                     // the structured merge cases are about order: permute selections / definitions
                     kind = if rng.pct(70) { "perm-selections" } else { "perm-definitions" };
                 }
@@ -430,6 +434,52 @@ pub fn cases_for(prop: &str, tier: &str, seed: u64, shard: (usize, usize)) -> (V
                     if let Some(j) = J::from_value(&v) {
                         push(&mut cases, "hand-made", minimal, &j, "null", false, &mut n);
                     }
+                }
+            }
+            // hand-made SPEC-CONFORMANT results (must parse): every directive location of the
+            // specification, deprecations with reasons, default values, deep ofType chains, an interface
+            // nobody implements, specifiedByURL, every optional member present / null / absent
+            let all_locs = ["QUERY", "MUTATION", "SUBSCRIPTION", "FIELD", "FRAGMENT_DEFINITION", "FRAGMENT_SPREAD", "INLINE_FRAGMENT", "VARIABLE_DEFINITION",
+                "SCHEMA", "SCALAR", "OBJECT", "FIELD_DEFINITION", "ARGUMENT_DEFINITION", "INTERFACE", "UNION", "ENUM", "ENUM_VALUE", "INPUT_OBJECT", "INPUT_FIELD_DEFINITION"];
+            let tref = |k: &str, n: &str| serde_json::json!({"kind": k, "name": n, "ofType": null});
+            let wrap = |k: &str, inner: serde_json::Value| serde_json::json!({"kind": k, "name": null, "ofType": inner});
+            let mut conformant: Vec<serde_json::Value> = vec![];
+            for variant in 0..3 {
+                let opt = |v: serde_json::Value| -> Option<serde_json::Value> { match variant { 0 => Some(v), 1 => Some(serde_json::Value::Null), _ => None } };
+                let mut scalar = serde_json::json!({"kind": "SCALAR", "name": "Url"});
+                if let Some(v) = opt(serde_json::json!("https://example.org/url")) { scalar["specifiedByURL"] = v; }
+                if let Some(v) = opt(serde_json::json!("a scalar")) { scalar["description"] = v; }
+                let mut enum_value = serde_json::json!({"name": "OLD", "isDeprecated": true});
+                if let Some(v) = opt(serde_json::json!("use NEW")) { enum_value["deprecationReason"] = v; }
+                let mut arg = serde_json::json!({"name": "first", "type": wrap("NON_NULL", wrap("LIST", wrap("NON_NULL", wrap("LIST", tref("SCALAR", "Int")))))});
+                if let Some(v) = opt(serde_json::json!("[[1, 2]]")) { arg["defaultValue"] = v; }
+                let mut schema = serde_json::json!({
+                    "queryType": {"name": "Q"},
+                    "types": [
+                        {"kind": "OBJECT", "name": "Q", "fields": [{"name": "f", "args": [arg.clone()], "type": tref("INTERFACE", "Lonely"), "isDeprecated": false}], "interfaces": []},
+                        {"kind": "INTERFACE", "name": "Lonely", "fields": [{"name": "x", "args": [], "type": tref("SCALAR", "Url"), "isDeprecated": true, "deprecationReason": "gone"}], "possibleTypes": []},
+                        {"kind": "ENUM", "name": "E", "enumValues": [enum_value, {"name": "NEW", "isDeprecated": false}]},
+                        {"kind": "INPUT_OBJECT", "name": "In", "inputFields": [arg.clone()]},
+                        {"kind": "UNION", "name": "U", "possibleTypes": [tref("OBJECT", "Q")]},
+                        scalar,
+                        {"kind": "SCALAR", "name": "Int"}
+                    ],
+                    "directives": [
+                        {"name": "everywhere", "locations": all_locs, "args": [arg.clone()], "isRepeatable": true},
+                        {"name": "sensitive", "locations": ["VARIABLE_DEFINITION"], "args": []}
+                    ]
+                });
+                if let Some(v) = opt(serde_json::json!({"name": "M"})) { schema["mutationType"] = v; }
+                if let Some(v) = opt(serde_json::json!({"name": "S"})) { schema["subscriptionType"] = v; }
+                conformant.push(serde_json::json!({"__schema": schema}));
+            }
+            for loc in all_locs {
+                conformant.push(serde_json::json!({"__schema": {"queryType": {"name": "Q"}, "types": [{"kind": "SCALAR", "name": "Q"}],
+                    "directives": [{"name": "d", "locations": [loc], "args": []}]}}));
+            }
+            for v in &conformant {
+                if let Some(j) = J::from_value(v) {
+                    push(&mut cases, "hand-made-conformant", minimal, &j, "null", false, &mut n);
                 }
             }
             // the bundled real-world results
@@ -784,6 +834,18 @@ pub fn exhaustive_family(prop: &str, tier: &str, rng: &mut Rng, shard: (usize, u
                     docs.push((format!("literal-pairs:pos{}", pos), d.print()));
                 }
             }
+            if prop != "C08" {
+                // context answers around arguments: every wrapper / unknown directive combination, and
+                // variables inside object literals at positions of every wrapper shape
+                for d in argument_slot_cases() {
+                    docs.push(("argument-slots".to_string(), d.print()));
+                }
+                let vo = variable_object_cases();
+                let nvo = budget(tier, 800, vo.len());
+                for d in pick_sample(vo, nvo, rng) {
+                    docs.push(("variable-objects".to_string(), d.print()));
+                }
+            }
         }
         "C07" => {
             let mut all = vec![];
@@ -838,6 +900,11 @@ pub fn exhaustive_family(prop: &str, tier: &str, rng: &mut Rng, shard: (usize, u
             for d in variable_graph_cases(rng, budget(tier, 3000, 60000)) {
                 docs.push(("variable-graphs".to_string(), d.print()));
             }
+            let vo = variable_object_cases();
+            let nvo = budget(tier, 2500, vo.len());
+            for d in pick_sample(vo, nvo, rng) {
+                docs.push(("variable-objects".to_string(), d.print()));
+            }
             for (vb, vk, dk, l1, d1, l2, d2, split) in pick_sample(two, budget(tier, 2500, 100000), rng) {
                 if let Some(d) = two_usages_case(vb, vk, dk, l1, d1, l2, d2, split) {
                     docs.push(("variable-two-usages".to_string(), d.print()));
@@ -875,6 +942,9 @@ pub fn exhaustive_family(prop: &str, tier: &str, rng: &mut Rng, shard: (usize, u
             }
             for d in merge_argument_cases() {
                 docs.push(("merge-arguments".to_string(), d.print()));
+            }
+            for d in merge_fragment_dag_cases(rng, budget(tier, 3000, 60000)) {
+                docs.push(("merge-fragment-dags".to_string(), d.print()));
             }
         }
         "C10" => {
@@ -916,6 +986,21 @@ pub fn exhaustive_family(prop: &str, tier: &str, rng: &mut Rng, shard: (usize, u
             let k = 5 + (j % 2);
             let doc = graphk_doc(rng, k).print();
             out.push(Case { id: format!("g{}{}x{}", k, shard.0, j), family: format!("fragment-graph-{}", k), schema: minimal, op: "validate".into(), doc: Some(doc), extra: vec![], note: String::new() });
+        }
+    }
+    if prop == "C11" {
+        // explicit schema definition naming other roots than the types called Subscription / Query / Mutation
+        if let Some(decoy) = pool.iter().position(|s| s.name == "decoy") {
+            let mut i = 0usize;
+            let mut docs2 = subscription_graph_cases_on(rng, budget(tier, 600, 12000), "Events", "created", "deleted");
+            docs2.extend(subscription_graph_cases_on(rng, budget(tier, 300, 6000), "Subscription", "plan", "renewal"));
+            for d in docs2 {
+                i += 1;
+                if i % shard.1 != shard.0 {
+                    continue;
+                }
+                out.push(Case { id: format!("dc{}x{}", shard.0, i), family: "subscription-graphs-decoy".into(), schema: decoy, op: "validate".into(), doc: Some(d.print()), extra: vec![], note: String::new() });
+            }
         }
     }
     if prop == "C04" {
